@@ -385,6 +385,7 @@ class BayesianProblem(object):
 
         # Create a copy of self
         prior_problem = copy(self)
+        prior_problem._target = copy(self._target) # (the shallow copy shares the posterior object: the likelihood is replaced on a copy of it)
 
         # Set likelihood to constant
         model = cuqi.model.LinearModel(lambda x: 0*x, lambda y: 0*y, self.model.range_geometry, self.model.domain_geometry)
